@@ -16,8 +16,8 @@ structure Running (s : St) (m : Mon) (c : Call) : Prop where
   ne : c.v ≠ c.prev
   notReturned : m.returned = false
   confirmed : m.confirmed = !s.pending
-  openSet : m.openSet = (!s.tracking && awaiting s)
-  tracked : s.tracking = true → awaiting s = false
+  openSet : m.openSet = awaiting s
+  trk : m.tracking = s.tracking
   time : ∀ l, m.lastTx = some l → l + s.timeout ≤ lb s
 
 def Count (s : St) (m : Mon) (c : Call) : Prop :=
@@ -29,7 +29,7 @@ def Count (s : St) (m : Mon) (c : Call) : Prop :=
 
 def Rel (s : St) (m : Mon) : Prop :=
   match s.phase with
-  | .idle => m = Mon.init s.loc
+  | .idle => m = Mon.init s.tracking s.loc
   | .done => m.returned = true
   | _ => ∃ c, Running s m c ∧ Count s m c
 
@@ -37,9 +37,9 @@ def Rel (s : St) (m : Mon) : Prop :=
 theorem loopTop_sim (s : St) (m : Mon) (c : Call)
     (hcall : m.call = some c) (hv : c.v = s.req) (hT : c.T = s.timeout) (hprev : c.prev = s.prev)
     (hne : c.v ≠ c.prev) (hnr : m.returned = false) (hconf : m.confirmed = !s.pending)
-    (hopen : m.openSet = false) (hcnt : m.nTx + s.retries = c.r)
+    (hopen : m.openSet = false) (htrk : m.tracking = s.tracking) (hcnt : m.nTx + s.retries = c.r)
     (htime : ∀ l, m.lastTx = some l → l + s.timeout ≤ s.now) :
-    ∃ m', onOuts s.tracking m (loopTop s).2 = some m' ∧ Rel (loopTop s).1 m' := by
+    ∃ m', onOuts m (loopTop s).2 = some m' ∧ Rel (loopTop s).1 m' := by
   unfold loopTop
   split
   · -- confirmed: return True
@@ -61,7 +61,7 @@ theorem loopTop_sim (s : St) (m : Mon) (c : Call)
         refine ⟨m, by simp [onOuts], ?_⟩
         simp only [Rel, attempt]
         refine ⟨c, ⟨hcall, hv, hT, hprev, hne, hnr, by simpa using hconf, by simp [awaiting, hopen],
-          by simp [awaiting], by simpa [lb] using htime⟩, ?_⟩
+          htrk, by simpa [lb] using htime⟩, ?_⟩
         simp only [Count]
         refine ⟨hcnt, by omega, ?_⟩
         first | rfl | trivial
@@ -77,10 +77,10 @@ theorem loopTop_sim (s : St) (m : Mon) (c : Call)
         · -- versions tracked: set request only
           rename_i hh htr
           refine ⟨{ m with nTx := m.nTx + 1, lastTx := some s.now, openSet := false }, ?_, ?_⟩
-          · simp [onOuts, onOut, hcall, hnr, hopen, attempt, hv, hlt, htm', htr]
+          · simp [onOuts, onOut, hcall, hnr, hopen, attempt, hv, hlt, htm', htr, htrk]
           · simp only [Rel, goSleep, attempt]
-            refine ⟨c, ⟨hcall, hv, hT, hprev, hne, hnr, by simpa using hconf, by simp [awaiting, htr],
-              by simp [awaiting], ?_⟩, ?_⟩
+            refine ⟨c, ⟨hcall, hv, hT, hprev, hne, hnr, by simpa using hconf, by simp [awaiting],
+              htrk, ?_⟩, ?_⟩
             · intro l hl
               simp only [Option.some.injEq] at hl
               simp [lb, ← hl]
@@ -89,10 +89,10 @@ theorem loopTop_sim (s : St) (m : Mon) (c : Call)
           rename_i hh htr
           have htr' : s.tracking = false := by simpa using htr
           refine ⟨{ m with nTx := m.nTx + 1, lastTx := some s.now, openSet := false }, ?_, ?_⟩
-          · simp [onOuts, onOut, hcall, hnr, hopen, attempt, hv, hlt, htm', htr']
+          · simp [onOuts, onOut, hcall, hnr, hopen, attempt, hv, hlt, htm', htr', htrk]
           · simp only [Rel, goSleep, attempt]
-            refine ⟨c, ⟨hcall, hv, hT, hprev, hne, hnr, by simpa using hconf, by simp [awaiting, htr'],
-              by simp [awaiting], ?_⟩, ?_⟩
+            refine ⟨c, ⟨hcall, hv, hT, hprev, hne, hnr, by simpa using hconf, by simp [awaiting],
+              htrk, ?_⟩, ?_⟩
             · intro l hl
               simp only [Option.some.injEq] at hl
               simp [lb, ← hl]
@@ -102,30 +102,32 @@ theorem loopTop_sim (s : St) (m : Mon) (c : Call)
 theorem onEvent_returned (m : Mon) (e : Ev) (h : m.returned = true) : (onEvent m e).returned = true := by
   cases e <;> simp only [onEvent] <;> (repeat' split) <;> simp_all
 
-theorem onOut_raise (tr : Bool) (m : Mon) (c : Call) (t : Nat) (hc : m.call = some c)
+theorem onOut_raise (m : Mon) (c : Call) (t : Nat) (hc : m.call = some c)
     (h1 : m.returned = false) (h2 : c.inRange = false) (h3 : m.nTx = 0) :
-    onOut tr m (.raise t) = some { m with returned := true } := by
+    onOut m (.raise t) = some { m with returned := true } := by
   simp [onOut, hc, h1, h2, h3]
 
-theorem sim_idle (s : St) (m : Mon) (e : Ev) (hp : s.phase = .idle) (h : m = Mon.init s.loc) :
-    ∃ m', onOuts s.tracking (onEvent m e) (step s e).2 = some m' ∧ Rel (step s e).1 m' := by
+theorem sim_idle (s : St) (m : Mon) (e : Ev) (hp : s.phase = .idle) (h : m = Mon.init s.tracking s.loc) :
+    ∃ m', onOuts (onEvent m e) (step s e).2 = some m' ∧ Rel (step s e).1 m' := by
   subst h
   cases e with
-  | built => exact ⟨Mon.init s.loc, by simp [step, hp, onOuts, onEvent], by simp [step, hp, Rel]⟩
-  | timer => exact ⟨Mon.init s.loc, by simp [step, hp, onOuts, onEvent], by simp [step, hp, Rel]⟩
+  | built => exact ⟨Mon.init s.tracking s.loc, by simp [step, hp, onOuts, onEvent], by simp [step, hp, Rel]⟩
+  | timer => exact ⟨Mon.init s.tracking s.loc, by simp [step, hp, onOuts, onEvent], by simp [step, hp, Rel]⟩
+  | setTracking b =>
+    exact ⟨Mon.init b s.loc, by simp [step, onOuts, onEvent, Mon.init], by simp [step, hp, Rel]⟩
   | wait d =>
-    refine ⟨Mon.init s.loc, by simp only [step]; split <;> simp [onOuts, onEvent], ?_⟩
+    refine ⟨Mon.init s.tracking s.loc, by simp only [step]; split <;> simp [onOuts, onEvent], ?_⟩
     simp only [step]; split <;> simp [hp, Rel]
   | report t =>
-    refine ⟨Mon.init t, by simp [step, onOuts, onEvent, Mon.init], ?_⟩
+    refine ⟨Mon.init s.tracking t, by simp [step, onOuts, onEvent, Mon.init], ?_⟩
     simp [step, update, hp, Rel, Mon.init]
   | call v r T =>
     rcases call_cases s hp v r T with ⟨h1, h2⟩ | ⟨h1, hr, h2⟩ | ⟨h1, hlo, hhi, h2⟩
     · rw [h2]
-      refine ⟨{ (onEvent (Mon.init s.loc) (.call v r T)) with returned := true }, ?_, by simp [Rel]⟩
+      refine ⟨{ (onEvent (Mon.init s.tracking s.loc) (.call v r T)) with returned := true }, ?_, by simp [Rel]⟩
       simp [onOuts, onOut, onEvent, Mon.init, h1]
     · rw [h2]
-      refine ⟨{ (onEvent (Mon.init s.loc) (.call v r T)) with returned := true }, ?_, by simp [Rel]⟩
+      refine ⟨{ (onEvent (Mon.init s.tracking s.loc) (.call v r T)) with returned := true }, ?_, by simp [Rel]⟩
       have hir : (decide (s.loc.min ≤ v) && decide (v ≤ s.loc.max)) = false := by
         rcases hr with hr | hr
         · have : ¬ s.loc.min ≤ v := by omega
@@ -133,15 +135,15 @@ theorem sim_idle (s : St) (m : Mon) (e : Ev) (hp : s.phase = .idle) (h : m = Mon
         · have : ¬ v ≤ s.loc.max := by omega
           simp [this]
       simp only [onOuts]
-      rw [onOut_raise _ _ ⟨v, r, T, s.loc.value, decide (s.loc.min ≤ v) && decide (v ≤ s.loc.max)⟩ _ rfl rfl hir rfl]
+      rw [onOut_raise _ ⟨v, r, T, s.loc.value, decide (s.loc.min ≤ v) && decide (v ≤ s.loc.max)⟩ _ rfl rfl hir rfl]
     · rw [h2]
-      have := loopTop_sim (arm s v r T) (onEvent (Mon.init s.loc) (.call v r T))
+      have := loopTop_sim (arm s v r T) (onEvent (Mon.init s.tracking s.loc) (.call v r T))
         ⟨v, r, T, s.loc.value, decide (s.loc.min ≤ v) && decide (v ≤ s.loc.max)⟩
-        rfl rfl rfl rfl h1 rfl rfl rfl (by simp [onEvent, Mon.init, arm]) (by simp [onEvent, Mon.init])
+        rfl rfl rfl rfl h1 rfl rfl rfl rfl (by simp [onEvent, Mon.init, arm]) (by simp [onEvent, Mon.init])
       exact this
 
 theorem sim_done (s : St) (m : Mon) (e : Ev) (hp : s.phase = .done) (h : m.returned = true) :
-    ∃ m', onOuts s.tracking (onEvent m e) (step s e).2 = some m' ∧ Rel (step s e).1 m' := by
+    ∃ m', onOuts (onEvent m e) (step s e).2 = some m' ∧ Rel (step s e).1 m' := by
   obtain ⟨h1, h2⟩ := done_step s e hp
   refine ⟨onEvent m e, by rw [h2]; rfl, ?_⟩
   simp only [Rel, h1]
@@ -163,7 +165,7 @@ theorem tooEarly_false (m : Mon) (T t : Nat) (h : ∀ l, m.lastTx = some l → l
 
 theorem sim_running (s : St) (m : Mon) (e : Ev) (c : Call) (hph : IsRunning s) (hr : Running s m c)
     (hc : Count s m c) :
-    ∃ m', onOuts s.tracking (onEvent m e) (step s e).2 = some m' ∧ Rel (step s e).1 m' := by
+    ∃ m', onOuts (onEvent m e) (step s e).2 = some m' ∧ Rel (step s e).1 m' := by
   have hni : s.phase ≠ .idle := by rcases hph with h | h | h <;> simp [h]
   cases e with
   | call v r T =>
@@ -178,7 +180,7 @@ theorem sim_running (s : St) (m : Mon) (e : Ev) (c : Call) (hph : IsRunning s) (
     · rename_i hw
       refine ⟨m, by simp [hm, onOuts], ?_⟩
       apply rel_of_running { s with now := s.now + d } m c hph
-      · refine ⟨hr.call, hr.v, hr.T, hr.prev, hr.ne, hr.notReturned, hr.confirmed, hr.openSet, hr.tracked, ?_⟩
+      · refine ⟨hr.call, hr.v, hr.T, hr.prev, hr.ne, hr.notReturned, hr.confirmed, hr.openSet, hr.trk, ?_⟩
         intro l hl
         have := hr.time l hl
         show l + s.timeout ≤ lb { s with now := s.now + d }
@@ -200,7 +202,7 @@ theorem sim_running (s : St) (m : Mon) (e : Ev) (c : Call) (hph : IsRunning s) (
       refine ⟨m, by simp [hm, onOuts], ?_⟩
       apply rel_of_running _ m c (by simpa [IsRunning, hphase] using hph)
       · exact ⟨hr.call, hr.v, hr.T, hr.prev, hr.ne, hr.notReturned, by rw [hpend]; exact hr.confirmed,
-          hr.openSet, hr.tracked, hr.time⟩
+          hr.openSet, hr.trk, hr.time⟩
       · exact hc
     · -- a value different from the previous one: confirmed
       have hm : onEvent m (.report t) = { m with confirmed := true } := by
@@ -211,8 +213,13 @@ theorem sim_running (s : St) (m : Mon) (e : Ev) (c : Call) (hph : IsRunning s) (
       refine ⟨{ m with confirmed := true }, by simp [hm, onOuts], ?_⟩
       apply rel_of_running _ _ c (by simpa [IsRunning, hphase] using hph)
       · exact ⟨hr.call, hr.v, hr.T, hr.prev, hr.ne, hr.notReturned, by simp [hpend],
-          hr.openSet, hr.tracked, hr.time⟩
+          hr.openSet, hr.trk, hr.time⟩
       · exact hc
+  | setTracking b =>
+    refine ⟨{ m with tracking := b }, by simp [step, onEvent, onOuts], ?_⟩
+    apply rel_of_running { s with tracking := b } _ c hph
+    · exact ⟨hr.call, hr.v, hr.T, hr.prev, hr.ne, hr.notReturned, hr.confirmed, hr.openSet, rfl, hr.time⟩
+    · exact hc
   | timer =>
     rcases hph with h | h | h
     · refine ⟨m, by simp [step, h, onEvent, onOuts], ?_⟩
@@ -225,7 +232,7 @@ theorem sim_running (s : St) (m : Mon) (e : Ev) (c : Call) (hph : IsRunning s) (
       simp only [Count, h] at hc
       have hop : m.openSet = false := by rw [hr.openSet]; simp [awaiting, h]
       have := loopTop_sim { s with now := s.wake, retries := s.retries - 1 } m c hr.call hr.v hr.T hr.prev
-        hr.ne hr.notReturned hr.confirmed hop (by show m.nTx + (s.retries - 1) = c.r; omega)
+        hr.ne hr.notReturned hr.confirmed hop hr.trk (by show m.nTx + (s.retries - 1) = c.r; omega)
         (by intro l hl; have := hr.time l hl; simpa [lb, h] using this)
       exact this
   | built =>
@@ -242,10 +249,10 @@ theorem sim_running (s : St) (m : Mon) (e : Ev) (c : Call) (hph : IsRunning s) (
       split
       · rename_i htr
         refine ⟨{ m with nTx := m.nTx + 1, lastTx := some s.now, openSet := false }, ?_, ?_⟩
-        · simp [onOuts, onOut, hr.call, hr.notReturned, hop, hc3, hr.v, hlt, hte, htr]
+        · simp [onOuts, onOut, hr.call, hr.notReturned, hop, hc3, hr.v, hlt, hte, htr, hr.trk]
         · apply rel_of_running _ _ c (Or.inr (Or.inr rfl))
-          · refine ⟨hr.call, hr.v, hr.T, hr.prev, hr.ne, hr.notReturned, hr.confirmed, by simp [goSleep, awaiting, htr],
-              by simp [goSleep, awaiting], ?_⟩
+          · refine ⟨hr.call, hr.v, hr.T, hr.prev, hr.ne, hr.notReturned, hr.confirmed, by simp [goSleep, awaiting],
+              hr.trk, ?_⟩
             intro l hl
             simp only [Option.some.injEq] at hl
             simp [lb, goSleep, ← hl]
@@ -254,36 +261,32 @@ theorem sim_running (s : St) (m : Mon) (e : Ev) (c : Call) (hph : IsRunning s) (
         have htr' : s.tracking = false := by simpa using htr
         split
         · refine ⟨{ m with nTx := m.nTx + 1, lastTx := some s.now, openSet := true }, ?_, ?_⟩
-          · simp [onOuts, onOut, hr.call, hr.notReturned, hop, hc3, hr.v, hlt, hte, htr']
+          · simp [onOuts, onOut, hr.call, hr.notReturned, hop, hc3, hr.v, hlt, hte, htr', hr.trk]
           · apply rel_of_running _ _ c (Or.inr (Or.inl rfl))
-            · refine ⟨hr.call, hr.v, hr.T, hr.prev, hr.ne, hr.notReturned, hr.confirmed, by simp [awaiting, htr'],
-                by simp [htr'], ?_⟩
+            · refine ⟨hr.call, hr.v, hr.T, hr.prev, hr.ne, hr.notReturned, hr.confirmed, by simp [awaiting],
+                hr.trk, ?_⟩
               intro l hl
               simp only [Option.some.injEq] at hl
               simp [lb, ← hl]
             · simp only [Count]; omega
         · refine ⟨{ m with nTx := m.nTx + 1, lastTx := some s.now, openSet := false }, ?_, ?_⟩
-          · simp [onOuts, onOut, hr.call, hr.notReturned, hop, hc3, hr.v, hlt, hte, htr']
+          · simp [onOuts, onOut, hr.call, hr.notReturned, hop, hc3, hr.v, hlt, hte, htr', hr.trk]
           · apply rel_of_running _ _ c (Or.inr (Or.inr rfl))
-            · refine ⟨hr.call, hr.v, hr.T, hr.prev, hr.ne, hr.notReturned, hr.confirmed, by simp [goSleep, awaiting, htr'],
-                by simp [goSleep, awaiting], ?_⟩
+            · refine ⟨hr.call, hr.v, hr.T, hr.prev, hr.ne, hr.notReturned, hr.confirmed, by simp [goSleep, awaiting],
+                hr.trk, ?_⟩
               intro l hl
               simp only [Option.some.injEq] at hl
               simp [lb, goSleep, ← hl]
             · simp only [Count, goSleep]; omega
     · -- the re-read request is queued
       simp only [Count, h] at hc
-      have htr : s.tracking = false := by
-        cases hq : s.tracking with
-        | false => rfl
-        | true => have := hr.tracked hq; simp [awaiting, h] at this
-      have hop : m.openSet = true := by rw [hr.openSet]; simp [awaiting, h, htr]
+      have hop : m.openSet = true := by rw [hr.openSet]; simp [awaiting, h]
       simp only [step, h]
       refine ⟨{ m with openSet := false }, ?_, ?_⟩
-      · simp [onOuts, onOut, htr, hop, hr.notReturned]
+      · simp [onOuts, onOut, hop, hr.notReturned]
       · apply rel_of_running _ _ c (Or.inr (Or.inr rfl))
         · refine ⟨hr.call, hr.v, hr.T, hr.prev, hr.ne, hr.notReturned, hr.confirmed, by simp [goSleep, awaiting],
-            by simp [goSleep, awaiting], ?_⟩
+            hr.trk, ?_⟩
           intro l hl
           have := hr.time l hl
           simpa [lb, goSleep, h] using this
@@ -293,7 +296,7 @@ theorem sim_running (s : St) (m : Mon) (e : Ev) (c : Call) (hph : IsRunning s) (
       exact rel_of_running s m c (Or.inr (Or.inr h)) hr hc
 
 theorem step_sim (s : St) (m : Mon) (e : Ev) (h : Rel s m) :
-    ∃ m', onOuts s.tracking (onEvent m e) (step s e).2 = some m' ∧ Rel (step s e).1 m' := by
+    ∃ m', onOuts (onEvent m e) (step s e).2 = some m' ∧ Rel (step s e).1 m' := by
   cases hp : s.phase with
   | idle => simp only [Rel, hp] at h; exact sim_idle s m e hp h
   | done => simp only [Rel, hp] at h; exact sim_done s m e hp h
@@ -305,25 +308,12 @@ theorem step_sim (s : St) (m : Mon) (e : Ev) (h : Rel s m) :
 
 /-- the monitor accepts every observation the machine produces -/
 theorem check_observe (s : St) (m : Mon) (es : List Ev) (h : Rel s m) :
-    check s.tracking m (observe s es) = true := by
+    check m (observe s es) = true := by
   induction es generalizing s m with
   | nil => rfl
   | cons e es ih =>
     obtain ⟨m', h1, h2⟩ := step_sim s m e h
     simp only [observe, check, h1]
-    have ht : (step s e).1.tracking = s.tracking := by
-      cases hp : s.phase with
-      | idle =>
-        by_cases hc : e.isCall = true
-        · cases e <;> simp [Ev.isCall] at hc
-          rename_i v r T
-          rcases call_cases s hp v r T with ⟨_, h2⟩ | ⟨_, _, h2⟩ | ⟨_, _, _, h2⟩
-          · rw [h2]
-          · rw [h2]
-          · rw [h2]; exact (loopTop_frame _).2.2.2.1
-        · exact (idle_step s e hp (by simpa using hc)).2.2.1
-      | _ => exact (step_frame s e (by simp [Active, hp])).2.2.2.1
-    rw [← ht]
     exact ih _ _ h2
 
 end PlumVerif.C08
